@@ -7,6 +7,7 @@
 
 mod alloc;
 mod c07;
+mod c10;
 mod check;
 mod ctx;
 mod elems;
@@ -35,6 +36,7 @@ use std::sync::atomic::{AtomicU64, Ordering};
 static GLOBAL: alloc::SimAlloc = alloc::SimAlloc;
 
 static CURRENT_RUN: AtomicU64 = AtomicU64::new(u64::MAX);
+pub static THOROUGH: std::sync::atomic::AtomicBool = std::sync::atomic::AtomicBool::new(false);
 
 #[derive(Clone, Debug, Serialize, Deserialize)]
 pub struct ReplayFile {
@@ -126,6 +128,7 @@ fn cmd_run(args: &[String]) -> i32 {
     let offset = arg_u64(args, "--offset", 0);
     let max_secs = arg_u64(args, "--max-secs", 3600);
     let thorough = arg(args, "--tier") == Some("thorough");
+    THOROUGH.store(thorough, Ordering::Relaxed);
     let out_path = arg(args, "--out").map(|s| s.to_string());
     let hang_secs = arg_u64(args, "--hang-secs", 20) as u32;
     let t0 = std::time::Instant::now();
@@ -155,7 +158,7 @@ fn cmd_run(args: &[String]) -> i32 {
             libc::alarm(hang_secs);
         }
         let spec = generate(prop, seed, i, thorough);
-        let o = run::run_spec(prop, &spec, false);
+        let o = run_for_prop(prop, &spec, false);
         runs += 1;
         steps += o.steps as u64;
         if o.nontrivial {
@@ -227,6 +230,7 @@ fn cmd_replay(args: &[String]) -> i32 {
     let text = std::fs::read_to_string(path).expect("read replay file");
     let rf: ReplayFile = serde_json::from_str(&text).expect("parse replay file");
     let verbose = args.iter().any(|a| a == "--transcript");
+    THOROUGH.store(rf.tier == "thorough", Ordering::Relaxed);
     CURRENT_RUN.store(rf.run, Ordering::Relaxed);
     unsafe {
         libc::alarm(20);
@@ -281,6 +285,7 @@ fn cmd_minimize(args: &[String]) -> i32 {
     let text = std::fs::read_to_string(&args[0]).expect("read replay file");
     let mut rf: ReplayFile = serde_json::from_str(&text).expect("parse replay file");
     let prop = Prop::parse(&rf.property).expect("property id");
+    THOROUGH.store(rf.tier == "thorough", Ordering::Relaxed);
     let subprocess = rf.class == "abort" || rf.class == "hang" || args.iter().any(|a| a == "--subprocess");
     let mut mz = minimize::Minimizer { prop, class: rf.class.clone(), tests: 0, subprocess };
     if !mz.fails(&rf.spec) {
